@@ -39,6 +39,7 @@ import (
 	"github.com/dadrus/heimdall/internal/rules/mechanisms/values"
 	"github.com/dadrus/heimdall/internal/x"
 	"github.com/dadrus/heimdall/internal/x/errorchain"
+	"github.com/dadrus/heimdall/internal/x/hashx"
 	"github.com/dadrus/heimdall/internal/x/stringx"
 )
 
@@ -361,18 +362,14 @@ func (h *genericContextualizer) calculateCacheKey(
 	binary.LittleEndian.PutUint64(ttlBytes, uint64(h.ttl))
 
 	hash := sha256.New()
-	hash.Write(h.e.Hash())
-	hash.Write(stringx.ToBytes(h.id))
-	hash.Write(stringx.ToBytes(strings.Join(h.fwdHeaders, ",")))
-	hash.Write(stringx.ToBytes(strings.Join(h.fwdCookies, ",")))
-	hash.Write(stringx.ToBytes(payload))
+	hashx.WriteBytes(hash, h.e.Hash())
+	hashx.WriteString(hash, h.id)
+	hashx.WriteStrings(hash, h.fwdHeaders)
+	hashx.WriteStrings(hash, h.fwdCookies)
+	hashx.WriteString(hash, payload)
 	hash.Write(ttlBytes)
-	hash.Write(sub.Hash())
-
-	for k, v := range values {
-		hash.Write(stringx.ToBytes(k))
-		hash.Write(stringx.ToBytes(v))
-	}
+	hashx.WriteBytes(hash, sub.Hash())
+	hashx.WriteStringMap(hash, values)
 
 	return hex.EncodeToString(hash.Sum(nil))
 }
